@@ -11,6 +11,7 @@ import json, os, sys
 OUT = os.environ.get('VERIF_REPO_TRACE_OUT')
 MAX_TRACES = int(os.environ.get('VERIF_REPO_TRACE_MAX', '40'))
 MAX_INSTANTS = int(os.environ.get('VERIF_REPO_TRACE_MAX_INSTANTS', '120'))
+KEEP = int(os.environ.get('VERIF_REPO_TRACE_KEEP', str(MAX_TRACES)))
 _state = {'traces': {}, 'order': [], 'done': 0, 'stop_log': None}
 
 
@@ -121,7 +122,7 @@ def _finalize():
             d['arg'] = '1'
         out.append({'id': f'repo{n}', 'elems': elems, 'selfLocking': bool(pt.self_locking), 'load': {k: '0' for k in ('c0', 'c1', 'c2', 'c3', 'ts', 'cs')}, 'load_logged': True, 'ctrls': [], 'stops': [],
                     'ops': tr['ops'], 'epochs': [{'time': time, 'hist': hist, 'kinds_ok': kinds_ok}], 'family': 'repo-tests', 'presentation': 'tests'})
-        if len(out) >= MAX_TRACES:
+        if len(out) >= KEEP:
             break
     if OUT:
         with open(OUT, 'w') as f:
